@@ -1004,6 +1004,24 @@ func (g *modCG) reachableFrom(roots []*ssa.Function) map[*ssa.Function]bool {
 	return seen
 }
 
+// providerMakers: every module function or closure that returns a DataProvider
+// (front-end factories and the helpers they build their provider with,
+// whatever they are called): execution code even when only reached through a
+// function value.
+func (P *Prog) providerMakers() []*ssa.Function {
+	var out []*ssa.Function
+	for _, fn := range P.Funcs {
+		res := fn.Signature.Results()
+		for i := 0; i < res.Len(); i++ {
+			if it, ok := res.At(i).Type().Underlying().(*types.Interface); ok && P.roles.DataProvider != nil && types.Identical(it, P.roles.DataProvider) {
+				out = append(out, fn)
+				break
+			}
+		}
+	}
+	return out
+}
+
 // execSet: functions reachable from Parse/Validate entry points and the front
 // ends (the execution-reachable set E of DESIGN section 2).
 func (P *Prog) execSet(g *modCG) map[*ssa.Function]bool {
@@ -1020,6 +1038,7 @@ func (P *Prog) execSet(g *modCG) map[*ssa.Function]bool {
 			roots = append(roots, fn)
 		}
 	}
+	roots = append(roots, P.providerMakers()...)
 	return g.reachableFrom(roots)
 }
 
